@@ -75,6 +75,7 @@ def run(ctx):
                     pairs = [(p, p + f"_{step}" if rng.random() < 0.5 else p) for p in picks]
                     src = f"require {m} import [" + ", ".join((a if a == b else f"{a} as {b}") for a, b in pairs + [(x, x) for x in extra_private]) + "]"
                     expect_new = {b for _, b in pairs}
+                    import_pairs = pairs
                 else:
                     src, expect_new = f"require {m} unqualified", set(pubs)
                 out, printed, syms = s.run(src)
@@ -98,6 +99,14 @@ def run(ctx):
                 new = after - before
                 if not new <= expect_new or any(x.startswith("_") for x in new) or (form in ("plain", "as") and not expect_new <= after):
                     ctx.violation("oracle", f"`{src}` bound {sorted(new)}, expected only {sorted(expect_new)}", rp)
+                if form == "import":
+                    # exactly the requested names, each bound to the module's own value of the requested symbol
+                    modenv = s.it.base_environment.modules.get(m)
+                    for a_, b_ in import_pairs:
+                        if b_ not in s.it.environment.map:
+                            ctx.violation("oracle", f"`{src}` did not bind `{b_}`", rp)
+                        elif modenv is not None and a_ in modenv.map and s.it.environment.map[b_] is not modenv.map[a_]:
+                            ctx.violation("oracle", f"`{src}` bound `{b_}` to {s.it.environment.map[b_]}, the module's `{a_}` is {modenv.map[a_]}", rp)
                 if form == "unq" and not set(pubs) <= after:
                     ctx.violation("oracle", f"`{src}` did not bind all public symbols: missing {sorted(set(pubs) - after)}", rp)
                 # the module object exposes exactly the public definitions (and no re-exported modules)
